@@ -295,6 +295,21 @@ pub fn drive_c01(out: &mut dyn std::io::Write, seed: u64, thorough: bool) {
                 ks_event_warm(out, variant, &key, &nonce, p, &rng.bytes(l), warm);
             }
         }
+        // (ii'') the low counter word's carry at every phase of the 4-block refill: requests that start k blocks before a
+        // multiple of 2^32 blocks and run well past it (64-bit-counter types), k = 1..8, block-aligned and not
+        if *variant != "Ietf" {
+            for k in 1..=8u64 {
+                for (m, r) in [(1u64, 0u64), (1, 7), (2 + (seed % 5), 33)] {
+                    if !thorough && (k + m + seed) % 2 == 0 && r != 0 {
+                        continue;
+                    }
+                    let p = m * (1u64 << 38) - 64 * k + r;
+                    let key = rng.bytes(32);
+                    let nonce = rng.bytes(nl);
+                    ks_event(out, variant, &key, &nonce, p, &vec![0u8; (64 * k + 600) as usize], "carry");
+                }
+            }
+        }
         // (iii) all-ones key and nonce (carries everywhere)
         ks_event(out, variant, &vec![0xffu8; 32], &vec![0xffu8; nl], 3, &vec![0u8; 130], "ones");
     }
